@@ -45,6 +45,7 @@ fn main() {
         "registry" => suites::registry::main(seed, first, runs, &out, kv.get("sched")),
         "dist" => suites::dist::main(seed, first, runs, ops, &out, kv.get("sched"), kv.get("table").and_then(|t| t.parse().ok())),
         "pipeline" => suites::pipeline::main(seed, first, runs, &out, kv.get("sched")),
+        "incentive" => suites::incentive::main(seed, first, runs, ops, &out, kv.get("sched"), kv.get("table").and_then(|t| t.parse().ok())),
         "math" => suites::math::main(seed, first, runs, ops, &out, kv.get("kind").map(|s| s.as_str()).unwrap_or("all")),
         _ => {
             eprintln!("unknown suite {suite}");
